@@ -16,17 +16,19 @@ CONSTANTS
  NextHop = 4 Unstable = 24 CacheTO = 4 Inactive = 8 RemoveDelay = 2 SweepEvery = 2 PingEvery = 3 MaxTime = 1000
  CreateGuard = TRUE
  MaxCircuits = 2 MaxData = 2 MaxLoss = 0 MaxDup = 0 MaxAdv = 1 MaxNow = 0
- Goals = {2}
+ Goals = {1}
  Origins = {o, o2}
- AdvKinds = {"create", "destroy", "inject", "splice", "plain"}
+ AdvKinds = {"create", "destroy"}
  TrackWire = FALSE
  UseIds = FALSE
  NodeTeardown = FALSE
  MayVanish = FALSE
+ SweepRelays = TRUE
  Aead = TRUE
  CheckIdent = TRUE
  AutoTimers = TRUE
 INVARIANT TypeOK
+INVARIANT NoShadow
 INVARIANT ExitOnlyOwn
 INVARIANT ReturnIntegrity
 INVARIANT ExitIntegrity
